@@ -198,6 +198,33 @@ def helloP (cfg : Cfg) (T : Nat) : Prog Bytes :=
 def rpcP (frame : List Bytes) (replyDone : Bytes → Bool) (T : Nat) : Prog Bytes :=
   .io frame replyDone (some T) fun rb => .ret rb
 
+/-- Where the `*OperationOptions` handed to `sendRPC` comes from. Every public NETCONF operation
+    (Get, GetConfig, EditConfig, CopyConfig, DeleteConfig, Lock, Unlock, Validate, Commit, Discard,
+    RPC, EstablishPeriodicSubscription) is `sendRPC(message, options)`; they differ in the message
+    and in how `options` was built. -/
+inductive OptSource where
+  /-- `NewOperation(opts...)`: `Timeout` starts as `defaultTimeout` and is overwritten by a
+      `WithTimeoutOps t` among the options -/
+  | newOperation (perOp : Option Int) : OptSource
+  /-- a struct literal `&OperationOptions{…}`: `Timeout` is what the literal says (0 when absent) -/
+  | literal (timeout : Int) : OptSource
+
+/-- `op.Timeout` as `sendRPC` sees it (`dflt` = the package constant `defaultTimeout`) -/
+def optTimeout (dflt : Int) : OptSource → Int
+  | .newOperation none => dflt
+  | .newOperation (some t) => t
+  | .literal t => t
+
+/-- the timer of `sendRPC`: `d.Channel.GetTimeout(op.Timeout)` -/
+def rpcTimeout (ops maxT dflt : Int) (src : OptSource) : Int :=
+  getTimeout ops maxT (optTimeout dflt src)
+
+/-- a NETCONF operation of ANY kind: its framed message, its reply predicate, and the timeout its
+    options source yields -/
+def rpcOpP (frame : List Bytes) (replyDone : Bytes → Bool) (ops maxT dflt : Int) (src : OptSource) :
+    Prog Bytes :=
+  rpcP frame replyDone (rpcTimeout ops maxT dflt src).toNat
+
 structure Callback where
   trig : Bytes → Bool
   complete : Bool
